@@ -197,6 +197,11 @@ EvResult(ev) ==
       [] ev = "e_tup2" -> [k |-> "tuple", v |-> <<"v1", "v2">>]
       [] ev = "e_bin"  -> [k |-> "one",   v |-> <<"b1">>]
       [] ev = "e_tbin" -> [k |-> "tuple", v |-> <<"v1", "b1">>]
+      [] ev = "e_f"    -> [k |-> "one",   v |-> <<"f1">>]     \* falsy but meaningful results
+      [] ev = "e_es"   -> [k |-> "one",   v |-> <<"es">>]
+      [] ev = "e_el"   -> [k |-> "one",   v |-> <<"el">>]
+      [] ev = "e_ed"   -> [k |-> "one",   v |-> <<"ed">>]
+      [] ev = "e_h"    -> [k |-> "one",   v |-> <<"h1">>]
       [] ev = "e_raise"-> [k |-> "raise", v |-> <<>>]
       [] OTHER         -> [k |-> "unh",   v |-> <<>>]
 
@@ -417,7 +422,7 @@ EioLost(m, t, reason) ==
 
 ----------------------------------------------------------------------------
 (* Dispatcher: the outcome of action record a in core state s              *)
-IsRx(a) == a.act \in {"RxConnect", "RxDisconnect", "RxEvent", "RxAck", "RxFrame", "EioLost"}
+IsRx(a) == a.act \in {"RxConnect", "RxDisconnect", "RxEvent", "RxAck", "RxFrame", "RxRaw", "EioLost"}
 
 Step(m, a) ==
     CASE a.act = "EioOpen"      -> EioOpen(m, a.t)
@@ -432,6 +437,10 @@ Step(m, a) ==
                  ELSE RxBinHeader(m, a.t, a.ty, a.ns, a.id, a.ev, a.n)
             ELSE IF Has(m.s.binbuf, a.t) THEN RxAttachment(m, a.t, a.b)
                  ELSE Raise(m, "ValueError")   \* bytes where a text packet is expected
+      \* a malformed / hostile frame: `class` is what the reference reading of the
+      \* frame says ("contained": undecodable or ill-typed, the message callback
+      \* raises inside engine.io; "ignored": decodable but nobody is responsible)
+      [] a.act = "RxRaw"        -> IF a.class = "contained" THEN Raise(m, "X") ELSE m
       [] a.act = "Emit"         -> Emit(m, a)
       [] a.act = "EnterRoom"    -> EnterRoom(m, a.sid, a.room, a.ns)
       [] a.act = "LeaveRoom"    -> LeaveRoom(m, a.sid, a.room, a.ns)
@@ -461,8 +470,11 @@ Enabled(s, a) ==
     /\ CASE a.act = "EioOpen" -> s.eio[a.t] = "none" /\ \A u \in Transports : a.after = u => s.eio[u] # "none"
          [] a.act \in {"EioLost"} -> s.eio[a.t] = "open"
          [] a.act = "RxConnect" -> s.eio[a.t] = "open" /\ s.nextSid <= MaxSid /\ ~Has(s.binbuf, a.t)
-         [] a.act \in {"RxDisconnect", "RxEvent", "RxAck"} -> s.eio[a.t] = "open" /\ ~Has(s.binbuf, a.t)
-         [] a.act = "RxFrame" -> s.eio[a.t] = "open" /\ (a.kind = "hdr" => ~Has(s.binbuf, a.t))
+         [] a.act \in {"RxDisconnect", "RxEvent", "RxAck", "RxRaw"} -> s.eio[a.t] = "open" /\ ~Has(s.binbuf, a.t)
+         [] a.act = "RxFrame" -> /\ s.eio[a.t] = "open"
+                                 /\ (a.kind = "hdr" => ~Has(s.binbuf, a.t))
+                                 \* budget: attachments buffered for one packet
+                                 /\ (a.kind = "att" /\ Has(s.binbuf, a.t) => Len(s.binbuf[a.t].atts) < 3)
          [] a.act = "Emit" -> a.cb # "" => \A x \in DOMAIN s.cb : s.cb[x].next <= MaxAck
          [] OTHER -> TRUE
 
@@ -756,4 +768,38 @@ C11_FreshWhenEmpty ==
     (gh.dev = {} /\ \A t \in Transports : st.eio[t] # "open") =>
         /\ st.rooms = <<>> /\ st.nsOrder = <<>> /\ st.pending = <<>> /\ st.cb = <<>>
         /\ st.binbuf = <<>> /\ st.sess = <<>> /\ st.environ = {}
+
+----------------------------------------------------------------------------
+(* C12 - hostile input from one transport cannot touch the others          *)
+OwnedBy(s, t) ==        \* session ids that live on transport t
+    UNION {{x \in DOMAIN AllMembers(s, ns) : AllMembers(s, ns)[x] = t} : ns \in DOMAIN s.rooms}
+
+BystanderView(s, off) ==
+    LET mine == OwnedBy(s, off)
+    IN  [ rooms   |-> [ns \in DOMAIN s.rooms |-> [r \in DOMAIN s.rooms[ns] |->
+                          [x \in DOMAIN s.rooms[ns][r] \ mine |-> s.rooms[ns][r][x]]]],
+          cb      |-> [x \in DOMAIN s.cb \ mine |-> s.cb[x]],
+          sess    |-> [t \in DOMAIN s.sess \ {off} |-> s.sess[t]],
+          binbuf  |-> [t \in DOMAIN s.binbuf \ {off} |-> s.binbuf[t]],
+          environ |-> s.environ \ {off},
+          pending |-> [ns \in DOMAIN s.pending |-> SelectSeq(s.pending[ns], LAMBDA x : x \notin mine)],
+          eio     |-> [t \in DOMAIN s.eio \ {off} |-> s.eio[t]] ]
+
+(* rooms the offender leaves may disappear when it was their last member:  *)
+(* compare the bystanders' memberships, not the empty containers           *)
+Prune(v) ==
+    [v EXCEPT !.rooms = [ns \in {n \in DOMAIN @ : \E r \in DOMAIN @[n] : DOMAIN @[n][r] # {}} |->
+                            [r \in {r \in DOMAIN @[ns] : DOMAIN @[ns][r] # {}} |-> @[ns][r]]],
+              !.pending = [ns \in {n \in DOMAIN @ : @[n] # <<>>} |-> @[ns]]]
+
+C12_Isolation ==
+    \A a \in Acts(st) : (IsRx(a) /\ a.act # "EioLost") =>
+        LET o    == Do(st, a)
+            off  == a.t
+            mine == OwnedBy(st, off) \cup OwnedBy(o.s, off)
+        IN  /\ DOMAIN o.pk \subseteq {off}                     \* nothing is sent to anybody else
+            /\ \A i \in 1..Len(o.hc) : o.hc[i].sid \in mine    \* no handler on behalf of another client
+            /\ Prune(BystanderView(o.s, off)) = Prune(BystanderView(st, off))
+            /\ (o.cbs # <<>> => \E x \in mine : Has(st.cb, x)) \* only the offender's own callbacks complete
+            /\ (a.act = "RxRaw" /\ a.class = "contained" => o.hc = <<>> /\ o.pk = <<>> /\ o.s = st)
 ====
